@@ -2,6 +2,7 @@ SPECIFICATION Spec
 CONSTANTS
   Keys <- MCKeys
   Initial <- MCInitial
+  InitialPacked <- MCPacked
   WriterAdds <- MCAdds
   ReaderWants <- MCWants
   ReaderPinned = FALSE
